@@ -16,11 +16,12 @@
     * rebuild_perm : ItemsHaveScalars d → σ ~ flatten d → flatten (rebuild σ) = flatten d
       (equality of the flattened views AS LISTS, for every insertion order; proof in
       YtkProofs/Rebuild.lean: the document built so far is always `mask S d`, the restriction of
-      `d` to the leaf paths inserted so far with null pads in list slots not yet reached).
+      `d` to the leaf paths inserted so far with null pads in list slots not yet reached);
+    * rebuild_perm_exact : without empty lists / containers below the root, `rebuild σ = d`.
 -/
 import YtkProofs.Addr
 import YtkProofs.PointerPaths
-import YtkProofs.Rebuild
+import YtkProofs.RebuildB
 import YtkProofs.ValidB
 
 namespace Ytk.C02
@@ -91,6 +92,13 @@ theorem rebuild_perm_flattenMap (d : AMap Node) (hv : (Node.cont d).Valid) (hs :
   unfold flattenMap
   rw [rebuild_perm d hv hs hi σ h]
 
+/-- when additionally no list and no container below the root is empty, the rebuilt DOCUMENT is
+    the original one (not only its flattened view), for every insertion order -/
+theorem rebuild_perm_exact (d : AMap Node) (hv : (Node.cont d).Valid) (hs : (Node.cont d).SafeKeys)
+    (hn : ∀ p ∈ d, p.2.NoEmpty) (σ : List (String × Scalar)) (h : σ.Perm (flatten d)) :
+    rebuild σ = d :=
+  rebuild_exact d hv hs hn σ (fun _ hx => h.mem_iff.mp hx) (fun _ hx => h.mem_iff.mpr hx)
+
 def exDoc : AMap Node := [("a", .list [.list [.leaf ⟨"int", "1"⟩, .leaf Scalar.null], .cont [("x", .leaf ⟨"string", "s"⟩)]]), ("b", .cont [])]
 theorem nonvacuous_flatten : (flatten exDoc).map (·.1) = ["a[0][0]", "a[0][1]", "a[1].x"] := by decide
 
@@ -102,66 +110,27 @@ theorem nonvacuous_rebuild :
       rebuild (flatten exDoc).reverse ≠ exDoc ∧
       flatten (rebuild (flatten exDoc).reverse) = flatten exDoc := by
   have hv : (Node.cont exDoc).Valid := Node.validB_sound _ (by decide +kernel)
-  have hk : ∀ k ∈ ["a", "b", "x"], SafeKey k := by
-    intro k hk
-    simp only [List.mem_cons, List.mem_nil_iff, or_false] at hk
-    rcases hk with rfl | rfl | rfl <;> (unfold SafeKey; decide +kernel)
-  have hs : (Node.cont exDoc).SafeKeys := by
-    refine .cont ?_ ?_
-    · intro p hp
-      simp only [exDoc, List.mem_cons, List.mem_nil_iff, or_false] at hp
-      rcases hp with rfl | rfl <;> exact hk _ (by simp)
-    · intro p hp
-      simp only [exDoc, List.mem_cons, List.mem_nil_iff, or_false] at hp
-      rcases hp with rfl | rfl
-      · refine .list ?_
-        intro x hx
-        simp only [List.mem_cons, List.mem_nil_iff, or_false] at hx
-        rcases hx with rfl | rfl
-        · refine .list ?_
-          intro y hy
-          simp only [List.mem_cons, List.mem_nil_iff, or_false] at hy
-          rcases hy with rfl | rfl <;> exact .leaf _
-        · refine .cont ?_ ?_
-          · intro q hq
-            simp only [List.mem_cons, List.mem_nil_iff, or_false] at hq
-            subst hq
-            exact hk _ (by simp)
-          · intro q hq
-            simp only [List.mem_cons, List.mem_nil_iff, or_false] at hq
-            subst hq
-            exact .leaf _
-      · exact .cont (by intro q hq; cases hq) (by intro q hq; cases hq)
-  have hi : ItemsHaveScalars exDoc := by
-    refine .cont ?_
-    intro p hp
-    simp only [exDoc, List.mem_cons, List.mem_nil_iff, or_false] at hp
-    rcases hp with rfl | rfl
-    · refine .list ?_ ?_
-      · intro x hx
-        simp only [List.mem_cons, List.mem_nil_iff, or_false] at hx
-        rcases hx with rfl | rfl <;> decide
-      · intro x hx
-        simp only [List.mem_cons, List.mem_nil_iff, or_false] at hx
-        rcases hx with rfl | rfl
-        · refine .list ?_ ?_
-          · intro y hy
-            simp only [List.mem_cons, List.mem_nil_iff, or_false] at hy
-            rcases hy with rfl | rfl <;> decide
-          · intro y hy
-            simp only [List.mem_cons, List.mem_nil_iff, or_false] at hy
-            rcases hy with rfl | rfl <;> exact .leaf _
-        · refine .cont ?_
-          intro q hq
-          simp only [List.mem_cons, List.mem_nil_iff, or_false] at hq
-          subst hq
-          exact .leaf _
-    · exact .cont (by intro q hq; cases hq)
+  have hs : (Node.cont exDoc).SafeKeys := Node.safeB_sound _ (by decide +kernel)
+  have hi : ItemsHaveScalars exDoc := Node.itemsB_sound _ (by decide +kernel)
   refine ⟨hv, hs, hi, ?_, rebuild_perm exDoc hv hs hi _ (List.reverse_perm _)⟩
   intro e
   have h1 := congrArg List.length e
   have h2 : (rebuild (flatten exDoc).reverse).length = 1 := by decide +kernel
   rw [h2] at h1
   exact absurd h1 (by decide)
+
+def exFull : AMap Node :=
+  [("a", .list [.list [.leaf ⟨"int", "1"⟩, .leaf Scalar.null], .cont [("x", .leaf ⟨"string", "s"⟩)]]),
+   ("b", .cont [("c", .leaf ⟨"bool", "true"⟩)])]
+
+/-- the hypotheses of `rebuild_perm_exact` hold on a document with nested lists and containers;
+    it is rebuilt exactly from its reversed flattened view -/
+theorem nonvacuous_rebuild_exact :
+    (Node.cont exFull).Valid ∧ (Node.cont exFull).SafeKeys ∧ (∀ p ∈ exFull, p.2.NoEmpty) ∧
+      rebuild (flatten exFull).reverse = exFull := by
+  have hv : (Node.cont exFull).Valid := Node.validB_sound _ (by decide +kernel)
+  have hs : (Node.cont exFull).SafeKeys := Node.safeB_sound _ (by decide +kernel)
+  have hn : ∀ p ∈ exFull, p.2.NoEmpty := noEmptyKvsB_sound _ (by decide +kernel)
+  exact ⟨hv, hs, hn, rebuild_perm_exact exFull hv hs hn _ (List.reverse_perm _)⟩
 
 end Ytk.C02
